@@ -267,6 +267,8 @@ fn count_faults(sc: &Scenario, r: &RunResult, st: &mut Stats) {
     }
     let _ = (sc, last_drop);
     inc("spurious_poll", r.rep.spurious_fired);
+    inc("send_descheduled_between_reserve_and_push", r.rep.sends_split);
+    inc("call_dropped_unpolled", r.log.iter().filter(|e| matches!(e.k, EvKind::Cancelled { polls: 0, .. })).count() as u64);
     inc("budget_exhaustion", r.probes.budget_exhausted);
     inc("full_mailbox_wait", r.probes.full_mailbox_waits);
     if r.phases.iter().any(|q| *q == tokio::sim::Quiescence::Quiescent) && !r.pending_tasks.is_empty() {
